@@ -155,6 +155,11 @@ Definition run_job (v : jvariant) (c : cfg) : out :=
     | _ => o
     end.
 
+(** a job killed while the slow source sleeps must be recorded as killed (unless the fullsync sink failed before) *)
+Definition must_kill (c : cfg) : bool :=
+  c_kill c && (match c_src c with SSlow => true | _ => false end)
+  && negb (match c_jt c, c_snk c with JFull, KMissing => true | _, _ => false end).
+
 (** the lattice *)
 Definition all_src := [SDataset; SSample; SSlow; SHttp; SHttpMid; SProxy; SUnion].
 Definition all_tr := [TNone; TJs; TJsPar; TPanic; TEmpty; TNoCode].
